@@ -2,39 +2,21 @@ package main
 
 import (
 	"fmt"
-	"io"
 	"os"
-	"path/filepath"
 	"strings"
 
-	"verifharness/dml"
 	"verifharness/hc"
 )
 
 func main() {
 	dir, _ := os.MkdirTemp("", "probe")
 	defer os.RemoveAll(dir)
-	os.WriteFile(filepath.Join(dir, "f1.csv"), []byte("id,a\n0,1\n1,2\n2,3\n"), 0o644)
-	pr := hc.NewProc(dir)
-	defer pr.Close()
-	fmt.Println(pr.P.Tx.Session.SetStdin(io.NopCloser(strings.NewReader("id,p,note\n0,5,x\n1,6,y\n2,7,z\n"))))
-	run := func(sql string) {
-		out, err := pr.Exec(sql)
-		fmt.Printf("--- %s\n%s err=%v num=%d marks=%s\n", sql, strings.TrimSpace(out), err, dml.ErrNum(err), dml.Marks(pr))
-		pr.Exec("COMMIT;")
+	for cpu := 1; cpu <= 4; cpu++ {
+		pr := hc.NewProc(dir)
+		pr.SetCPU(cpu)
+		pr.Exec("DECLARE m VIEW (id, p); INSERT INTO m VALUES (0,5); COMMIT;")
+		out, err := pr.Exec("DECLARE fn1 FUNCTION () AS BEGIN INSERT INTO m VALUES (1, 1), (2, 2); RETURN 1; END; SELECT fn1();")
+		fmt.Println("cpu", cpu, "inserted lines:", strings.Count(out, "inserted"), err)
+		pr.Close()
 	}
-	run("UPDATE stdin, f1 SET stdin.p = f1.a, f1.a = stdin.p FROM stdin JOIN f1 ON stdin.id = f1.id WHERE TRUE;")
-	run("DELETE stdin FROM stdin, f1 WHERE stdin.id = f1.id AND f1.id = 0;")
-	run("REPLACE INTO stdin (id, p) USING (id) VALUES (1, 100), (9, 9);")
-	run("ALTER TABLE stdin ADD (x DEFAULT p * 2) AFTER id;")
-	run("ALTER TABLE stdin RENAME x TO y;")
-	run("ALTER TABLE stdin DROP note;")
-	run("IF TRUE THEN INSERT INTO stdin (id) SELECT id + 50 FROM stdin; END IF;")
-	run("UPDATE stdin SET p = 1 / (id - 1);")
-	run("INSERT INTO f1 (id, a) SELECT id, p FROM stdin WHERE id > 5;")
-	run("CREATE TABLE `n1.csv` (id, x) AS SELECT id, p FROM stdin;")
-	s, _, err := dml.SnapOf(pr, "stdin")
-	fmt.Println(s.Dump("stdin"), err)
-	s, _, err = dml.SnapOf(pr, "f1")
-	fmt.Println(s.Dump("f1"), err)
 }
